@@ -26,11 +26,38 @@ def make_model(datasets, learner="linear", train_fdr=0.05, max_iter=3, seed=0, d
                          override=override, direction=direction, shuffle=shuffle, rng=seed)
 
 
-def _scrambled_copy(path, rng):
+def _scrambled_copy(path, rng, mode="permuted"):
     """Rewrite the table at `path` in place: same columns, same row count, the rows in another order and the scan numbers
     permuted independently of them (another experiment written to the same location). Returns the original bytes."""
     path = Path(path)
     raw = path.read_bytes()
+    if mode == "few_decoys":
+        # same rows in the same order; all but about one decoy in twelve relabelled as targets
+        def relabel(vals):
+            num = np.array([float(v) if str(v) not in ("True", "False") else float(str(v) == "True") for v in vals])
+            tgt = vals[int(np.argmax(num))]
+            dec = np.flatnonzero(num < num.max())
+            flip = dec[rng.random(len(dec)) > 1 / 12]
+            out = list(vals)
+            for i in flip:
+                out[int(i)] = tgt
+            return out
+        if path.suffix == ".parquet":
+            df = pd.read_parquet(path)
+            for col in df.columns:
+                if col.lower() == "label":
+                    df[col] = pd.Series(relabel(df[col].tolist()), dtype=df[col].dtype)
+            df.to_parquet(path, index=False)
+        else:
+            lines = raw.decode().splitlines()
+            head = lines[0].split("\t")
+            body = [ln.split("\t") for ln in lines[1:]]
+            for ci, col in enumerate(head):
+                if col.lower() == "label":
+                    for b, v in zip(body, relabel([b[ci] for b in body])):
+                        b[ci] = v
+            path.write_text("\n".join(["\t".join(head)] + ["\t".join(b) for b in body]) + "\n")
+        return raw
     if path.suffix == ".parquet":
         df = pd.read_parquet(path)
         df = df.iloc[rng.permutation(len(df))].reset_index(drop=True)
@@ -52,7 +79,7 @@ def _scrambled_copy(path, rng):
     return raw
 
 
-def history_prelude(paths, folds, seed, counters=None):
+def history_prelude(paths, folds, seed, mode="permuted"):
     """Earlier use of the same interpreter and the same file locations: other data (same shape) is written to every path
     and analysed with another fold count, then the files are restored byte for byte. Nothing of the prelude is judged;
     whatever it leaves behind in the process (module-level caches, memoised attributes) is the history the observed
@@ -63,7 +90,7 @@ def history_prelude(paths, folds, seed, counters=None):
     done = False
     try:
         for p in paths:
-            saved[p] = _scrambled_copy(p, rng)
+            saved[p] = _scrambled_copy(p, rng, mode)
         ds = read_datasets(paths, 1)
         tag = recorder.new_run_tag()
         model = make_model(ds, "linear", 0.05, 2, int(seed) % 1000, 0.0, False, tag=tag)
@@ -79,9 +106,9 @@ def history_prelude(paths, folds, seed, counters=None):
 
 def run_brew(paths, learner="linear", folds=3, seed=0, test_fdr=0.05, train_fdr=0.05, max_workers=1,
              subset_max_train=None, max_iter=3, delay=0.0, override=False, read_workers=1, ensemble=False, perturb=None,
-             history=None):
+             history=None, history_mode="permuted"):
     if history is not None:
-        ok = history_prelude(paths, folds, history)
+        ok = history_prelude(paths, folds, history, history_mode)
         out = run_brew(paths, learner, folds, seed, test_fdr, train_fdr, max_workers, subset_max_train, max_iter, delay,
                        override, read_workers, ensemble, perturb)
         out["history_prelude_completed"] = ok
